@@ -13,6 +13,7 @@
 #include <deque>
 #include <map>
 #include <sys/mman.h>
+#include <sys/wait.h>
 #include <unistd.h>
 
 // Arrays the library indexes with values derived from bus traffic (Devices[iDev], N2kCANMsgBuf[i], CANSendFrameBuf[i]) are moved,
@@ -86,11 +87,29 @@ static std::vector<unsigned long> *plist(const std::string &v) {
 
 static std::string sched(tN2kScheduler &s) { char t[32]; if (s.IsDisabled()) return "off"; snprintf(t, 32, "%llu", (unsigned long long)s.NextTime); return t; }
 
+static void run_case(const std::string &line);
+
 int main() {
   std::string line;
   while (std::getline(std::cin, line)) {
+#if !defined(ESP_PLATFORM)
+    // 32-bit scheduler build: N2kMillis64() keeps a roll counter in function-local statics, so every case gets a fresh process
+    fflush(stdout);
+    pid_t pid = fork();
+    if (pid == 0) { run_case(line); fflush(stdout); _exit(0); }
+    int st = 0; waitpid(pid, &st, 0);
+    if (!(WIFEXITED(st) && WEXITSTATUS(st) == 0)) { printf("crash %s\n", WIFSIGNALED(st) ? "signal" : "sanitizer"); fflush(stdout); }
+#else
+    run_case(line);
+#endif
+  }
+  return 0;
+}
+
+static void run_case(const std::string &line) {
+  {
     size_t bar = line.find('|');
-    if (line.compare(0, 4, "NODE") != 0 || bar == std::string::npos) { printf("badcase\n"); fflush(stdout); continue; }
+    if (line.compare(0, 4, "NODE") != 0 || bar == std::string::npos) { printf("badcase\n"); fflush(stdout); return; }
     std::vector<std::string> cfg = split(line.substr(4, bar - 4));
     std::map<std::string, std::string> kv;
     for (auto &c : cfg) { size_t e = c.find('='); if (e != std::string::npos) kv[c.substr(0, e)] = c.substr(e + 1); }
@@ -184,5 +203,4 @@ int main() {
     fflush(stdout);
     // the node is deliberately not destroyed: tNMEA2000 has no destructor that releases its buffers
   }
-  return 0;
 }
